@@ -37,6 +37,23 @@ def init_func(P, tu):
     return None
 
 
+_RESETFN = {}
+
+
+def reset_fn_name(P, tu):
+    """name of the variant's function that resets its out-of-order managers: the same-TU function (whatever it is called) that
+    calls the ooo_mgr_*_reset functions, directly or through one more level"""
+    if tu in _RESETFN:
+        return _RESETFN[tu]
+    best = (0, None)
+    for f in P.funcs(tu):
+        n = sum(1 for _, _, ev in f.calls() if re.match(r'^ooo_mgr_\w+_reset$', ev['e'].get('fn') or ''))
+        if n > best[0]:
+            best = (n, f.name)
+    _RESETFN[tu] = best[1] if best[0] >= 5 else None
+    return _RESETFN[tu]
+
+
 def mgr_fnptr_fields(P):
     rec = P.record('IMB_MGR')
     return [f['name'] for f in rec['fields'] if f.get('fnptr')]
@@ -81,7 +98,7 @@ def masks_guarding(f, bid):
         t = f.blocks[d].get('term')
         if not t or t['kind'] != 'IfStmt':
             continue
-        ft = features_test(t.get('fullcond') or t.get('cond'))
+        ft = features_test(guards.expand(f, t.get('fullcond') or t.get('cond'), d))
         if not ft:
             continue
         m, pol = ft
@@ -153,7 +170,8 @@ def rule_handlers(chk, P, rid_complete, rid_reset, rid_noreset):
         only1 = reach1 - reach0
         evs1 = [ev for b in reach1 for ev in f.blocks[b]['ev']]
         calls1 = {ev['e'].get('fn') for ev in evs1 if ev['k'] == 'call'}
-        rr.check('reset_ooo_mgrs' in calls1, vt + ':reset_ooo_mgrs', f.loc, '%s does not call reset_ooo_mgrs() when reset_mgrs != 0' % f.name)
+        rfn = reset_fn_name(P, tu)
+        rr.check(rfn is not None and rfn in calls1, vt + ':reset_ooo_mgrs', f.loc, '%s does not call %s() when reset_mgrs != 0' % (f.name, rfn or 'the manager reset function'))
         ring = {}
         for ev in evs1:
             if ev['k'] == 'assign' and cf.strip_casts(ev['lhs']).get('f') in ('next_job', 'earliest_job'):
@@ -163,7 +181,7 @@ def rule_handlers(chk, P, rid_complete, rid_reset, rid_noreset):
         bad0 = []
         for b in reach0:
             for ev in f.blocks[b]['ev']:
-                if ev['k'] == 'call' and (ev['e'].get('fn') == 'reset_ooo_mgrs' or (ev['e'].get('fn') or '').startswith('ooo_mgr_')):
+                if ev['k'] == 'call' and (ev['e'].get('fn') == rfn or (ev['e'].get('fn') or '').startswith('ooo_mgr_')):
                     bad0.append('calls %s' % ev['e']['fn'])
                 if ev['k'] == 'assign':
                     l = cf.strip_casts(ev['lhs'])
@@ -313,10 +331,11 @@ def rule_reset(chk, P, prefix='I'):
     M = build.macros()
     for tu in P.variant_tus():
         vt = tu.split('__')[0]
-        if not P.has(tu, 'reset_ooo_mgrs'):
-            chk.broken('%s: reset_ooo_mgrs missing' % tu)
+        rfn = reset_fn_name(P, tu)
+        if rfn is None:
+            chk.broken('%s: no function resets the out-of-order managers' % tu)
             continue
-        g = P.func(tu, 'reset_ooo_mgrs')
+        g = P.func(tu, rfn)
         resets = {}
         for _, _, ev in g.calls():
             fn = ev['e'].get('fn')
@@ -327,7 +346,7 @@ def rule_reset(chk, P, prefix='I'):
         # fields used by the variant's dispatch (anything but the reset function itself)
         used = {}
         for f in P.funcs(tu):
-            if f.name == 'reset_ooo_mgrs':
+            if f.name == rfn:
                 continue
             for _, _, ev in f.events():
                 for k in ('e', 'lhs', 'rhs', 'val'):
@@ -382,7 +401,7 @@ def live_ooo_fields(P, tu, M):
     from .c06 import ooo_args
     out = {}
     for f in P.funcs(tu):
-        if f.name == 'reset_ooo_mgrs' or f.name.startswith('init_mb_mgr'):
+        if f.name == reset_fn_name(P, tu) or f.name.startswith('init_mb_mgr'):
             continue
         calls = []
         for b, blk in f.blocks.items():
